@@ -20,7 +20,7 @@ sys.stdout.write(''.join(out))
 PY
 git apply --recount -p1 /dev/shm/fix.diff || patch -p1 < /dev/shm/fix.diff
 gofmt -l pkg | head
-if ! go test -count=1 "$@" 2>&1 | tail -15 | tee /dev/shm/fix.test | grep -q "^FAIL\|FAIL	"; then
+if ! go test -count=1 "$@" 2>&1 | grep -v "^ok\|no test files" | tail -25 | tee /dev/shm/fix.test | grep -q "^FAIL\|FAIL	"; then
   git commit -qam "$msg"; git log --oneline | head -1
 else
   cat /dev/shm/fix.test; echo "TESTS FAILED - reverting"; git checkout -- .; exit 1
